@@ -151,6 +151,14 @@ def case_fn(case):
             others_k = dict((n_, np.array(v_[0], float)) for n_, v_ in cdk.items() if n_ != 'Absorption')
         except Exception as e:
             r.check(False, 'no-exception', 'exception/%s/model_contrib/ktables' % type(e).__name__, exc=repr(e))
+    comps_k = None
+    if deg and 'abs' in case['contribs']:
+        # the per-molecule components of the absorption source (taken now, in correlated-k mode; compared further down
+        # with the same components in cross-section mode)
+        try:
+            comps_k = [(n_, np.array(f_, float)) for n_, f_, _, _ in mk.model_full_contrib()[1].get('Absorption', [])]
+        except Exception as e:
+            r.check(False, 'no-exception', 'exception/%s/model_full_contrib/ktables' % type(e).__name__, exc=repr(e))
     N = mk.nLayers
     wn = np.array(WN)
     T = np.asarray(mk.temperatureProfile, float)
@@ -229,6 +237,18 @@ def case_fn(case):
     if deg:
         mx, gx, sx, tx, _ = run(case, False)
         r.eq(gk, gx, 'same-grid', 'degenerate/grid', rtol=0)
+        if comps_k is not None:
+            comps_x = dict((n_, np.array(f_, float)) for n_, f_, _, _ in mx.model_full_contrib()[1].get('Absorption', []))
+            r.check(sorted(n_ for n_, _ in comps_k) == sorted(comps_x), 'degenerate-equals-xsec', 'degenerate/component-names',
+                    got=[n_ for n_, _ in comps_k], want=sorted(comps_x))
+            for n_, fk in comps_k:
+                if n_ in comps_x and case['kind'] == 'transmission':
+                    r.eq(fk, comps_x[n_], 'degenerate-equals-xsec', 'degenerate/component/' + case['kind'], rtol=1e-9,
+                         component=n_)
+                elif n_ in comps_x:
+                    r.check(bool(np.all(np.abs(fk - comps_x[n_]) <= 2 * L * scale + 1e-9 * np.abs(comps_x[n_]))),
+                            'degenerate-equals-xsec', 'degenerate/component/' + case['kind'], component=n_, got=fk,
+                            want=comps_x[n_])
         if case['kind'] == 'transmission':
             r.eq(tk, tx, 'degenerate-equals-xsec', 'degenerate/trans/' + case['kind'], rtol=1e-12, atol=1e-14)
             r.eq(sk, sx, 'degenerate-equals-xsec', 'degenerate/spectrum/' + case['kind'], rtol=1e-13)
